@@ -147,3 +147,19 @@ Example pool_nonvacuous :
   | None => false
   end = true.
 Proof. vm_compute. reflexivity. Qed.
+
+(* ---- the synchronisation skeleton the model assumes (which Go critical section each label of Model/ConnMux.v / conn_do of Model/ConnOps.v stands for, conn_assumptions: Model/SkeletonAssumptions.v)
+   holds of /repo's CURRENT source: call/access facts regenerated by harness/cmd/vskel on every run. *)
+From KV Require Model.SkeletonAssumptions Gen.Skeleton Proofs.SkeletonConn.
+Theorem C06_skeleton_assumptions :
+  KV.Model.SkeletonAssumptions.conn_assumptions_hold KV.Gen.Skeleton.calls KV.Gen.Skeleton.accesses = true.
+Proof. exact KV.Proofs.SkeletonConn.conn_skeleton_ok. Qed.
+Print Assumptions C06_skeleton_assumptions.
+
+(* ---- the synchronisation skeleton the model assumes (which Go critical section / channel operation each label of Model/TransportPool.v stands for, transport_assumptions: Model/SkeletonAssumptions.v)
+   holds of /repo's CURRENT source: call/access facts regenerated by harness/cmd/vskel on every run. *)
+From KV Require Model.SkeletonAssumptions Gen.Skeleton Proofs.SkeletonTransport.
+Theorem C06_transport_skeleton_assumptions :
+  KV.Model.SkeletonAssumptions.transport_assumptions_hold KV.Gen.Skeleton.calls KV.Gen.Skeleton.accesses = true.
+Proof. exact KV.Proofs.SkeletonTransport.transport_skeleton_ok. Qed.
+Print Assumptions C06_transport_skeleton_assumptions.
